@@ -181,10 +181,16 @@ func (r *Run) Finish(level string) int {
 			continue
 		}
 		nviol++
+		exit = 1
+		if nviol > 25 {
+			continue
+		}
 		path := r.writeReplay(v)
 		fmt.Printf("VIOLATION property=%s replay=%s\n", r.ID, path)
-		fmt.Printf("  class=%s case=%s occurrences=%d\n  %s\n", key, v.CaseID, v.Count, v.Detail)
-		exit = 1
+		fmt.Printf("  class=%s case=%s occurrences=%d\n  %s\n", key, v.CaseID, v.Count, Trunc(v.Detail, 1500))
+	}
+	if nviol > 25 {
+		fmt.Printf("... %d further violation classes not printed\n", nviol-25)
 	}
 	r.writeEvidence(level, nviol)
 	if exit == 0 {
